@@ -18,15 +18,42 @@ Definition runs_agree (a b : run) : list (nat * string) :=
   (if files_equal (r_files a) (r_matches a) (r_files b) (r_matches b) then [] else [(code_violation, "configuration differs between two runs")]) ++
   (if str_list_eqb (r_conds a) (r_conds b) then [] else [(code_violation, "conditions differ between two runs")]).
 
+(* "the losers are told so in status", BackendTLSPolicies on one Service. Stated on the observed conditions, in the
+   one situation where it is certain that the competition was in front of the controller: the winner (oldest, then
+   namespace/name) targets that Service only and carries an entry of one of our Gateways (so the Service is a backend of
+   a Route the controller handles); a loser that targets that Service only must then carry an entry that is not Accepted. *)
+Definition btp_entry_prefixes (cs : cluster) (b : btp) : list string :=
+  map (fun g => ("BackendTLSPolicy/" ++ bt_ns b ++ "/" ++ bt_name b ++ "|ancestor " ++ g_name g ++ "|")%string) (c_gateways cs).
+Definition btp_has_entry (cs : cluster) (conds : list string) (b : btp) : bool :=
+  existsb (fun c => existsb (fun p => has_prefix p c) (btp_entry_prefixes cs b)) conds.
+Definition btp_told_no (cs : cluster) (conds : list string) (b : btp) : bool :=
+  existsb (fun c => existsb (fun p => has_prefix (p ++ "Accepted=False")%string c) (btp_entry_prefixes cs b)) conds.
+Definition same_btp (a b : btp) : bool := seqb (bt_ns a) (bt_ns b) && seqb (bt_name a) (bt_name b).
+Definition silent_losers (cs : cluster) (conds : list string) : list btp :=
+  filter (fun b =>
+    match bt_targets b with
+    | [svc] =>
+        match btp_for cs (bt_ns b) svc with
+        | Some w => negb (same_btp w b) && (match bt_targets w with [_] => true | _ => false end) &&
+                    btp_has_entry cs conds w && negb (btp_told_no cs conds b)
+        | None => false
+        end
+    | _ => false
+    end) (c_btps cs).
+
 Definition complaints (c : case) : list (nat * string) :=
   match k_runs c with
   | [] => []
   | r0 :: rest =>
       let cs := flat_map (runs_agree r0) rest in
-      match cs with
-      | [] => []
-      | _ => if has_mixed_group (k_cluster c) then [(code_known 33, "runs differ (finding D33/D19: HTTPRoute and GRPCRoute share host and path)")] else cs
-      end
+      (match cs with
+       | [] => []
+       | _ => if has_mixed_group (k_cluster c) then [(code_known 33, "runs differ (finding D33/D19: HTTPRoute and GRPCRoute share host and path)")] else cs
+       end) ++
+      (match silent_losers (k_cluster c) (r_conds r0) with
+       | [] => []
+       | _ => [(code_known 46, "a BackendTLSPolicy that lost against an older policy on the same Service carries no status entry (finding D46)")]
+       end)
   end.
 
 Definition check_case (c : case) : list nat := dedup_nat (map fst (complaints c)).
